@@ -245,3 +245,20 @@ PROPS["C11"] = dict(
     shards=lambda tier, seed: sharded("c11", _n(tier, 8, 16), _n(tier, 300, 1200)),
     min_evaluations={"quick": 100, "thorough": 600},
 )
+
+PROPS["C14"] = dict(
+    title="High-water marks bound buffering and SNDTIMEO/RCVTIMEO mean what they say",
+    rule="(send side) sender in {PUSH, ROUTER(mandatory), DEALER} towards a connected peer that never reads, over tcp/inproc(/ipc), SNDHWM=RCVHWM in "
+         "{1,10,100(,2,1000)}, SNDTIMEO in {0,100,-1(,20,500)}, small SO_SNDBUF/SO_RCVBUF and 64 KiB messages on stream transports: every call's "
+         "error variant and elapsed time is judged (0: would-block at once; T: timeout/would-block within [T, T+2s]; -1: no error while observed), "
+         "the number accepted before the first refusal must stay below 2*SNDHWM+2*RCVHWM+2*batch+transport+16, then the peer drains and the C01 "
+         "oracle checks received == accepted and that no refused message ever shows up. (unblock) with -1 a blocked send must complete once the "
+         "peer reads. (recv side) recv/recv_multipart on an empty queue for RCVTIMEO in {0,20,100,500,-1} on PULL/SUB/DEALER/ROUTER/REP/REQ. "
+         "distinct = (pair, transport, HWM, timeout).",
+    assumptions=["generous time bounds (T+2 s late, 15 ms early tolerance); the -1 case is observed for 3 s (quick) / 35 s (thorough)",
+                 "kernel buffering is limited with SNDBUF/RCVBUF=32 KiB and counted as 8 messages of 64 KiB"],
+    shards=lambda tier, seed: sharded("c14", _n(tier, 10, 16), _n(tier, 420, 2400))
+    + sharded("c14", 4, 300, extra=["--only", "recv"], name="c14-recv"),
+    max_parallel=8,
+    min_evaluations={"quick": 40, "thorough": 200},
+)
